@@ -94,8 +94,8 @@ theorem flatMap_filter_singleton {β : Type} (l : List β) (f : β → K) (q : K
   | cons a t ih =>
     simp only [List.flatMap_cons, List.map_cons, ih]
     by_cases h : q (f a) = true
-    · simp [List.filter_cons, h]
-    · simp [List.filter_cons, h]
+    · simp [h]
+    · simp [h]
 
 /-- row-major flattening: entry `k*n + i` of the flattened array is entry `(k, i)` -/
 theorem flatten_getElem? (rows : List (List K)) (n : Nat) (h : ∀ row ∈ rows, row.length = n)
